@@ -668,3 +668,131 @@ Proof.
   - exact (bulk_complete H MStream chunks (fun _ => None) fault true store0 nw sched Hs
              (fun E => match E with eq_refl => I end) Hfin Hres).
 Qed.
+
+(* ================= completeness: no fault, valid input, no cancellation => nil ================= *)
+Definition job_bad (H : bytes -> id) (mode : bmode) (jobs : list (id * bytes)) (src : id -> option bytes) (k : nat) : Prop :=
+  match mode with
+  | MChop => N.eqb (H (jdata jobs k)) (jid H mode jobs k) = false    (* the file no longer holds the indexed bytes *)
+  | MCopy => src (jid H mode jobs k) = None                           (* the source lacks the chunk *)
+  | MStream => False
+  end.
+(* an error has a cause: an injected fault or an invalid job *)
+Definition caused H mode jobs src (fault : op_kind -> nat -> bool) : Prop :=
+  (exists o n, fault o n = true) \/ (exists k, k < njobs jobs /\ job_bad H mode jobs src k).
+
+(* program points that only exist in one of the modes *)
+Definition pc_mode_ok (mode : bmode) (w : bpc) : Prop :=
+  match w with
+  | BGet _ => mode = MCopy
+  | BMark _ | BHas _ | BUnmark _ => mode <> MCopy
+  | _ => True
+  end.
+
+Record FInv H mode jobs src fault (cc : bool) (s : bstate) : Prop := {
+  f_doom : doomed s -> caused H mode jobs src fault;
+  f_store : forall i k, nth_error (b_workers s) i = Some (BStore k) -> jbytes H mode jobs src k <> None;
+  f_canc : b_cancelled s = true -> b_failed s = true \/ b_ext s = true;
+  f_ext : b_ext s = true -> cc = true;
+  f_broke : b_feeder s = Stopped true -> b_cancelled s = true;
+  f_pc : forall i w, nth_error (b_workers s) i = Some w -> pc_mode_ok mode w;
+}.
+
+Lemma step_finv H mode jobs src fault cc s t s' :
+  BInv H mode jobs s -> FInv H mode jobs src fault cc s ->
+  bstep H mode jobs src fault cc s t = Some s' -> FInv H mode jobs src fault cc s'.
+Proof.
+  intros B I E. destruct t as [|i|]; unfold bstep in E.
+  - break_step E; inversion E; subst; clear E; destruct I; constructor; simp; auto; try discriminate.
+  - destruct (nth_error (b_workers s) i) as [w0|] eqn:Ew; [|discriminate].
+    assert (Hk : forall k, holds k w0 -> k < njobs jobs).
+    { intros k Hh. pose proof (v_holds _ _ _ _ B i w0 k Ew Hh). pose proof (v_fed _ _ _ _ B). lia. }
+    assert (Hdoom : forall f' w', (f' = true -> b_failed s = true \/ is_doom w0) ->
+              (is_doom w' -> is_doom w0 \/ caused H mode jobs src fault) ->
+              doomedc f' (set_nth (b_workers s) i w') -> caused H mode jobs src fault).
+    { intros f' w' Hf Hw [Hd|Hd].
+      - destruct (Hf Hd) as [Hd'|Hd']; [apply (f_doom _ _ _ _ _ _ _ I); left; exact Hd'|].
+        apply (f_doom _ _ _ _ _ _ _ I). right. exists i, w0. split; assumption.
+      - apply exw_set_inv in Hd. destruct Hd as [Hd|Hd].
+        + destruct (Hw Hd) as [Hd'|Hc]; [|exact Hc].
+          apply (f_doom _ _ _ _ _ _ _ I). right. exists i, w0. split; assumption.
+        + apply (f_doom _ _ _ _ _ _ _ I). right. exact Hd. }
+    assert (Hst : forall w', (forall k, w' = BStore k -> jbytes H mode jobs src k <> None) ->
+              forall j k, nth_error (set_nth (b_workers s) i w') j = Some (BStore k) -> jbytes H mode jobs src k <> None).
+    { intros w' Hw j k Ej. apply nth_error_set_nth in Ej. destruct Ej as [[_ Ej]|[_ Ej]].
+      - apply Hw. congruence.
+      - eapply (f_store _ _ _ _ _ _ _ I); eauto. }
+    assert (Hpc : forall w', pc_mode_ok mode w' ->
+              forall j w, nth_error (set_nth (b_workers s) i w') j = Some w -> pc_mode_ok mode w).
+    { intros w' Hw j w Ej. apply nth_error_set_nth in Ej. destruct Ej as [[_ ->]|[_ Ej]]; [exact Hw|].
+      eapply (f_pc _ _ _ _ _ _ _ I); eauto. }
+    pose proof (f_pc _ _ _ _ _ _ _ I i w0 Ew) as Hw0.
+    destruct mode; destruct w0 as [| |k|k|k|k|k|k|k]; cbn [worker_step] in E;
+      cbn in Hw0; try discriminate Hw0; try (exfalso; apply Hw0; reflexivity);
+      break_step E;
+      inversion E; subst; clear E; constructor; simp;
+      try exact (f_canc _ _ _ _ _ _ _ I);
+      try (apply Hpc; cbn; first [exact Logic.I | reflexivity | discriminate]); try exact (f_ext _ _ _ _ _ _ _ I); try exact (f_broke _ _ _ _ _ _ _ I);
+      try (intros; left; reflexivity);
+      try (intros; reflexivity);
+      try (intros; discriminate);
+      try (exfalso; eapply (f_store _ _ _ _ _ _ _ I); eauto; fail);
+      try (apply Hst; intros k0 Ek0; first [discriminate Ek0 | inversion Ek0; subst; unfold jbytes; first [discriminate | congruence]]);
+      try (unfold doomed; simp; apply Hdoom;
+           [ first [ intros Hf; left; exact Hf | intros _; right; exact Logic.I ]
+           | cbn; intros Hd;
+             first [ contradiction
+                   | left; exact Logic.I
+                   | right; left; eexists; eexists; eassumption
+                   | right; right; exists k; split; [apply Hk; reflexivity|cbn; assumption] ] ]).
+  - break_step E; inversion E; subst; clear E; destruct I; constructor; simp; auto.
+    intros _. apply andb_true_iff in Q. tauto.
+Qed.
+
+Lemma init_finv H mode jobs src fault cc store0 nw : FInv H mode jobs src fault cc (binit store0 nw).
+Proof.
+  constructor; cbn; try discriminate.
+  - intros [Hf|[i [w [Ei Hw]]]]; [discriminate|].
+    apply nth_error_In, repeat_spec in Ei. subst. contradiction.
+  - intros i k Ei. apply nth_error_In, repeat_spec in Ei. discriminate.
+  - intros i w Ei. apply nth_error_In, repeat_spec in Ei. subst. exact Logic.I.
+Qed.
+
+Lemma run_finv H mode jobs src fault cc store0 nw sched :
+  let s := run (bstep H mode jobs src fault cc) sched (binit store0 nw) in
+  BInv H mode jobs s /\ FInv H mode jobs src fault cc s.
+Proof.
+  apply inv_run with (Inv := fun s => BInv H mode jobs s /\ FInv H mode jobs src fault cc s).
+  - intros s t s' [B I] E. split; [eapply step_inv; eauto|eapply step_finv; eauto].
+  - split; [apply init_inv|apply init_finv].
+Qed.
+
+(* An error is only reported when a store operation failed or a job was invalid; an interruption only
+   after a cancellation: without faults, invalid jobs and cancellation every schedule ends in nil. *)
+Theorem bulk_err_has_cause H mode jobs src fault cc store0 nw sched :
+  let s := run (bstep H mode jobs src fault cc) sched (binit store0 nw) in
+  bulk_result s = RErr -> caused H mode jobs src fault.
+Proof.
+  intros s Hres. destruct (run_finv H mode jobs src fault cc store0 nw sched) as [_ I]. fold s in I.
+  unfold bulk_result in Hres. destruct (b_failed s) eqn:Ef.
+  - apply (f_doom _ _ _ _ _ _ _ I). left. exact Ef.
+  - destruct (b_feeder s) as [|[|]]; discriminate.
+Qed.
+
+Theorem bulk_no_fault_nil H mode jobs src fault store0 nw sched :
+  (forall o n, fault o n = false) ->
+  (forall k, k < njobs jobs -> ~ job_bad H mode jobs src k) ->
+  let s := run (bstep H mode jobs src fault false) sched (binit store0 nw) in
+  bfinal s = true -> bulk_result s = RNil.
+Proof.
+  intros Hnf Hok s Hfin.
+  destruct (run_finv H mode jobs src fault false store0 nw sched) as [_ I]. fold s in I.
+  destruct (bulk_result s) eqn:Hres; [reflexivity| |].
+  - exfalso. destruct (bulk_err_has_cause H mode jobs src fault false store0 nw sched Hres) as [[o [n E]]|[k [Hk Hb]]].
+    + rewrite Hnf in E. discriminate.
+    + exact (Hok k Hk Hb).
+  - exfalso. unfold bulk_result in Hres. destruct (b_failed s) eqn:Ef; [discriminate|].
+    destruct (b_feeder s) as [|[|]] eqn:Efd; try discriminate.
+    pose proof (f_broke _ _ _ _ _ _ _ I Efd) as Hc.
+    destruct (f_canc _ _ _ _ _ _ _ I Hc) as [Hf|He]; [congruence|].
+    pose proof (f_ext _ _ _ _ _ _ _ I He). discriminate.
+Qed.
